@@ -152,7 +152,9 @@ def run(ctx, replay):
     open_devs = sorted(open_f)
     ctx.cov["open_deviations"] = open_devs
 
-    pool = ThreadPoolExecutor(max_workers=4 if thorough else 10)
+    # several TLC JVMs run side by side: bound their heaps (the java launcher reads JDK_JAVA_OPTIONS)
+    os.environ.setdefault("JDK_JAVA_OPTIONS", "-Xmx6g" if thorough else "-Xmx2500m")
+    pool = ThreadPoolExecutor(max_workers=4 if thorough else 6)
     build = pool.submit(ctx.build_harness, "checkrunnercheck")
     if replay:
         obj = json.load(open(replay))
